@@ -77,10 +77,10 @@ func decodeElementConstExprVector(r *bytes.Reader, elemType wasm.RefType, enable
 			}
 			vec[i] = wasm.ElementInitNullReference
 		case wasm.OpcodeGlobalGet:
-			i32, _, _ := leb128.LoadInt32(expr.Data)
+			idx, _, _ := leb128.LoadUint32(expr.Data)
 			// Resolving the reference type from globals is done at instantiation phase. See the comment on
 			// wasm.elementInitImportedGlobalReferenceType.
-			vec[i] = wasm.WrapGlobalIndexAsElementInit(wasm.Index(i32))
+			vec[i] = wasm.WrapGlobalIndexAsElementInit(idx)
 		default:
 			return nil, fmt.Errorf("const expr must be either ref.null or ref.func but was %s", wasm.InstructionName(expr.Opcode))
 		}
